@@ -11,7 +11,9 @@ from ..gen_classes import Gen as ClassGen
 from ..gen_classical import make_program, render
 
 PROP = "C10"
-RULE = ("base programs: (a) class programs of C08 (hierarchies, overload holder, generic Box, helper "
+RULE = ("base programs: (0) the whole-program rule templates of C16 (violating and conforming) plus hand-written "
+        "order-sensitive shapes (abstract method passed through a middle class, qualified base name, override "
+        "chains, generic bounds, static initialisers that read other classes); (a) class programs of C08 (hierarchies, overload holder, generic Box, helper "
         "functions called from field initialisers, show functions taking class parameters, main) "
         "whose top-level declarations are split into units; (b) classical multi-function programs "
         "of C07 (call graphs, recursion). Permutations: exhaustive when the program has <= 5 "
@@ -49,11 +51,86 @@ def perms(n, rng, cap):
     return out[:cap]
 
 
+def split_top_level(src):
+    """Split a source text into its top-level declarations (class / function blocks)."""
+    units, depth, start, i, n = [], 0, 0, 0, len(src)
+    in_str = None
+    while i < n:
+        ch = src[i]
+        if in_str:
+            if ch == in_str:
+                in_str = None
+        elif ch in "\"'":
+            in_str = ch
+        elif ch == "/" and src[i:i + 2] == "//":
+            while i < n and src[i] != "\n":
+                i += 1
+            continue
+        elif ch == "{":
+            depth += 1
+        elif ch == "}":
+            depth -= 1
+            if depth == 0:
+                units.append(src[start:i + 1].strip("\n") + "\n")
+                start = i + 1
+        i += 1
+    tail = src[start:].strip()
+    if tail:
+        units.append(tail + "\n")
+    return units
+
+
+def rule_programs(ctx):
+    """Programs from the C16 matrix (violating and conforming): their verdict must not depend on
+    the declaration order either."""
+    from . import c16
+    out = []
+    for rid, bad, good in c16.PROGRAM_RULES:
+        if bad is None:
+            continue
+        for role, text in (("violating", bad), ("twin", good)):
+            out.append(("rule:%s:%s" % (rid, role), text + "\nfunction main() -> void { }\n"))
+    extra = [
+        ("abstract-chain", "class Shape { public constructor() -> Shape = default; public virtual function area() -> int; }\n"
+                           "class Poly extends Shape { public int sides = 3; public constructor() -> Poly { super(); return this; } }\n"
+                           "class Blob extends Poly { public int w = 2; public constructor() -> Blob { super(); return this; } }\n"
+                           "function main() -> void { Blob b = new Blob(); echo(b.w); }\n"),
+        ("abstract-chain-ok", "class Shape { public constructor() -> Shape = default; public virtual function area() -> int; }\n"
+                              "class Poly extends Shape { public int sides = 3; public constructor() -> Poly { super(); return this; } }\n"
+                              "class Blob extends Poly { public int w = 2; public constructor() -> Blob { super(); return this; } public override function area() -> int { return this.sides * this.w; } }\n"
+                              "function main() -> void { Shape b = new Blob(); echo(b.area()); }\n"),
+        ("qualified-base", "class Derived extends shapes.Base { public int d = 3; public constructor() -> Derived { super(); return this; } }\n"
+                           "class Base { public int a = 1; public constructor() -> Base = default; }\n"
+                           "function main() -> void { Derived x = new Derived(); echo(x.a); echo(x.d); x.a = 7; echo(x.d); }\n"),
+        ("override-chain", "class A { public constructor() -> A = default; public virtual function f() -> int { return 1; } }\n"
+                           "class B extends A { public constructor() -> B { super(); return this; } public virtual override function f() -> int { return 2; } }\n"
+                           "class C extends B { public constructor() -> C { super(); return this; } public override function f() -> int { return super.f() + 10; } }\n"
+                           "function show(A a) -> int { return a.f(); }\n"
+                           "function main() -> void { echo(show(new C())); echo(show(new B())); }\n"),
+        ("generic-bound-order", "class Zoo<T extends Animal> { public T pet; public constructor(T p) -> Zoo<T> { this.pet = p; return this; } }\n"
+                                "class Dog extends Animal { public constructor() -> Dog { super(); return this; } }\n"
+                                "class Animal { public int legs = 4; public constructor() -> Animal = default; }\n"
+                                "function main() -> void { Zoo<Dog> z = new Zoo<Dog>(new Dog()); echo(z.pet.legs); }\n"),
+        ("static-init-order", "class Cfg { public static int base = 5; public static int twice = Cfg.base * 2; public constructor() -> Cfg = default; }\n"
+                              "class Use { public static int v = Cfg.twice + 1; public constructor() -> Use = default; }\n"
+                              "function main() -> void { echo(Use.v); echo(Cfg.twice); }\n"),
+    ]
+    return out + extra
+
+
 def run(ctx):
     ctx.rule = RULE
     ctx.assumptions = ASSUMPTIONS
     binary = build.build("bloch", "asan")
     jobs = []
+    for k, (tag, text) in enumerate(rule_programs(ctx)):
+        units = split_top_level(text)
+        if len(units) < 2:
+            continue
+        rng = ctx.rng("rule%d" % k)
+        jobs.append((10000 + k, "rules", None, "".join(units)))
+        for p in perms(len(units), rng, ctx.n(8, 24)):
+            jobs.append((10000 + k, "rules", p, "".join(units[j] for j in p)))
     nprog = ctx.n(60, 1200)
     cap = ctx.n(14, 24)
     for i in range(nprog):
